@@ -46,6 +46,9 @@ type Chan struct {
 }
 
 func NewChan(eltSize, cap int) *Chan {
+	if cap < 0 || (eltSize > 0 && uintptr(cap) > maxAlloc/uintptr(eltSize)) {
+		panic(plainError("makechan: size out of range"))
+	}
 	ret := new(Chan)
 	if cap > 0 {
 		ret.data = AllocU(uintptr(cap * eltSize))
